@@ -116,6 +116,22 @@ func DrawTopology(n int, kind string) [][2]int {
 		for i := 1; i < n; i++ {
 			add(i, simrt.Choose(i, "parent"))
 		}
+	case "lollipop3", "lollipop4":
+		// a ring 0..k-1 with a tail k, k+1, ... hanging off node 1
+		k := 3
+		if kind == "lollipop4" {
+			k = 4
+		}
+		if n <= k {
+			return DrawTopology(n, "ring")
+		}
+		for i := 0; i < k; i++ {
+			add(i, (i+1)%k)
+		}
+		add(1, k)
+		for i := k; i+1 < n; i++ {
+			add(i, i+1)
+		}
 	default: // random connected: random spanning tree + extra edges
 		for i := 1; i < n; i++ {
 			add(i, simrt.Choose(i, "parent"))
